@@ -191,3 +191,58 @@ def gen_mapping(yaml, rng, depth=2, keys=None, distinct=True, nkeys=None):
             kn = yaml.ScalarNode(T['str'], k, km, km)
         pairs.append((kn, gen_node(yaml, rng, depth - 1, keys)))
     return yaml.MappingNode(rng.choice([T['map']] * 9 + ['!Cls']), pairs, m, m)
+
+
+def doc_sexp(yaml, root):
+    """the composer's node graph (shared node objects, possibly cyclic) as a Doc with anchors/aliases"""
+    refs = {}
+
+    def count(n):
+        refs[id(n)] = refs.get(id(n), 0) + 1
+        if refs[id(n)] > 1:
+            return
+        if isinstance(n, yaml.SequenceNode):
+            for x in n.value:
+                count(x)
+        elif isinstance(n, yaml.MappingNode):
+            for k, v in n.value:
+                count(k)
+                count(v)
+    count(root)
+    names = {}
+
+    def emit(n):
+        line, col = mark_of(n)
+        if id(n) in names:
+            return '( DA {} {} {} )'.format(hexs(names[id(n)]), line, col)
+        a = '~'
+        if refs[id(n)] > 1:
+            names[id(n)] = 'a%d' % len(names)
+            a = hexs(names[id(n)])
+        if isinstance(n, yaml.ScalarNode):
+            return '( DS {} {} {} {} {} )'.format(a, hexs(n.tag), hexs(n.value), line, col)
+        if isinstance(n, yaml.SequenceNode):
+            return ' '.join(['( DQ', a, hexs(n.tag), str(line), str(col)] + [emit(x) for x in n.value] + [')'])
+        return ' '.join(['( DM', a, hexs(n.tag), str(line), str(col)]
+                        + [emit(k) + ' ' + emit(v) for k, v in n.value] + [')'])
+    return emit(root)
+
+
+def all_scalar_values_graph(yaml, root):
+    out, seen = set(), set()
+
+    def rec(n):
+        if id(n) in seen:
+            return
+        seen.add(id(n))
+        if isinstance(n, yaml.ScalarNode):
+            out.add(n.value)
+        elif isinstance(n, yaml.SequenceNode):
+            for x in n.value:
+                rec(x)
+        else:
+            for k, v in n.value:
+                rec(k)
+                rec(v)
+    rec(root)
+    return out
